@@ -694,7 +694,7 @@ fn exercise(name: &str, spec: &ProgSpec, rng: &mut Rng, n_tuples: usize) -> Out1
         Some(p) => p,
         None => { out.counters.push(("programs_not_accepted_by_run_no_claim".into(), 1)); return out; }
     };
-    if work::qualify(spec, 150_000).is_none() {
+    if work::qualify_scaled(name, spec, 150_000).is_none() {
         out.counters.push(("programs_skipped_step_budget".into(), 1));
         return out;
     }
@@ -777,13 +777,17 @@ pub fn run(seed: u64, tier: &str, ev: &mut Evidence) -> Vec<Violation> {
     for (name, src) in super::c11::limit_templates() {
         specs.push((format!("limit:{}", name), ProgSpec::Source(src)));
     }
+    for (name, src) in work::scale_templates() {
+        specs.push((format!("scale:{}", name), ProgSpec::Source(src)));
+    }
     // one pinned instance of the recorded finding (AST nesting beyond the deserializers' limit), so that its
     // KNOWN-FINDING line is printed exactly while it exists, whatever the seed
     specs.push(("pinned:blocks-nested-200".into(), ProgSpec::Source(nesting_template(0, 200))));
     let outs: Vec<Out1> = par_map(specs.len(), |i| {
         let mut rng = Rng::for_case(seed, "C06", ENGINE, i as u64);
         super::util::breadcrumb("C06", json!({"kind": "program", "program": specs[i].1.to_json()}));
-        exercise(&specs[i].0, &specs[i].1, &mut rng, n_tuples)
+        let nt = if specs[i].0.starts_with("scale:") { 3 } else { n_tuples };
+        exercise(&specs[i].0, &specs[i].1, &mut rng, nt)
     });
     // ---- batches into one output directory -----------------------------------------------------
     let n_batches = if thorough { 4000usize } else { 250 };
